@@ -25,21 +25,63 @@ MUTS = [
  ('M13 extra D entries replace (not update) earlier ones', TB, "        self.extra_d_entries.update(d_entries)\n", "        self.extra_d_entries.clear()\n        self.extra_d_entries.update(d_entries)\n"),
  ('M14 only the first two name characters of Y used for the key', DP, "            next_value() + next_value() + next_value(),\n            [\n                next_value().rstrip() + next_value().rstrip(),", "            next_value() + next_value() + next_value()[:2] + '0',\n            [\n                next_value().rstrip() + next_value().rstrip(),"),
  ('M15 repair applied only at top level when the sequence is first (fix not applied inside replications)', TB, "                descriptor.members = [descriptors.pop(0)]\n            descriptor.members = _fix_ncep_descriptors(descriptor.members)", "                descriptor.members = [descriptors.pop(0)]\n                descriptor.members = _fix_ncep_descriptors(descriptor.members)"),
+ # --- cache / history mutations (second round): one mutation may edit several places: [(file, old, new), ...]
+ ('M16 table groups invalidated only when the definition message brings an id that was not defined in stream before', [
+     (DE, "                    TableGroupCacheManager.invalidate()\n", ""),
+     (TB, "        self.extra_b_entries.update(b_entries)\n        self.extra_d_entries.update(d_entries)\n",
+          "        if any(k not in self.extra_b_entries for k in b_entries) or any(k not in self.extra_d_entries for k in d_entries):\n            self.invalidate()\n        self.extra_b_entries.update(b_entries)\n        self.extra_d_entries.update(d_entries)\n")]),
+ ('M17 invalidation rebuilds Table B of the cached groups but keeps their Table D', [
+     (DE, "                    TableGroupCacheManager.invalidate()\n                    TableGroupCacheManager.add_extra_entries(b_entries, d_entries)\n",
+          "                    TableGroupCacheManager.add_extra_entries(b_entries, d_entries)\n                    TableGroupCacheManager.invalidate()\n"),
+     (TB, "    def invalidate(self):\n        self._groups.clear()\n",
+          "    def invalidate(self):\n        for key, g in list(self._groups.items()):\n            self._groups[key] = BufrTableGroup(g.A, TableB(key, self.extra_b_entries), g.C, g.D, g.R)\n")]),
+ ('M18 invalidation rebuilds Table D of the cached groups but keeps their Table B', [
+     (DE, "                    TableGroupCacheManager.invalidate()\n                    TableGroupCacheManager.add_extra_entries(b_entries, d_entries)\n",
+          "                    TableGroupCacheManager.add_extra_entries(b_entries, d_entries)\n                    TableGroupCacheManager.invalidate()\n"),
+     (TB, "    def invalidate(self):\n        self._groups.clear()\n",
+          "    def invalidate(self):\n        for key, g in list(self._groups.items()):\n            self._groups[key] = BufrTableGroup(g.A, g.B, g.C, TableD(g.B, g.C, g.R, key, self.extra_d_entries), g.R)\n")]),
+ ('M19 extra B entries merged with first-definition-wins', [
+     (TB, "        self.extra_b_entries.update(b_entries)\n", "        for k_, v_ in b_entries.items():\n            self.extra_b_entries.setdefault(k_, v_)\n")]),
+ ('M20 extra D entries merged with first-definition-wins', [
+     (TB, "        self.extra_d_entries.update(d_entries)\n", "        for k_, v_ in d_entries.items():\n            self.extra_d_entries.setdefault(k_, v_)\n")]),
+ ('M21 generation of the extra entries (compiled-template key) bumped only when the number of extra entries grew', [
+     (TB, "        self.extra_b_entries.update(b_entries)\n        self.extra_d_entries.update(d_entries)\n        self.extra_entries_generation += 1\n",
+          "        n_ = len(self.extra_b_entries) + len(self.extra_d_entries)\n        self.extra_b_entries.update(b_entries)\n        self.extra_d_entries.update(d_entries)\n        if len(self.extra_b_entries) + len(self.extra_d_entries) != n_:\n            self.extra_entries_generation += 1\n")]),
+ ('M22 invalidation skipped when the definition message is as long (bytes) as the previous definition message', [
+     (DE, "                    TableGroupCacheManager.invalidate()\n",
+          "                    if getattr(decoder, '_last_def_len', None) != len(bufr_message.serialized_bytes):\n                        TableGroupCacheManager.invalidate()\n                    decoder._last_def_len = len(bufr_message.serialized_bytes)\n")]),
+ ('M23 invalidation only when the definition message carries Table B entries', [
+     (DE, "                    TableGroupCacheManager.invalidate()\n", "                    if b_entries:\n                        TableGroupCacheManager.invalidate()\n")]),
+ ('M24 extra B entries replace (not update) earlier ones', [
+     (TB, "        self.extra_b_entries.update(b_entries)\n", "        self.extra_b_entries.clear()\n        self.extra_b_entries.update(b_entries)\n")]),
+ ('M25 generation bumped only when the definition message is not identical in length and entry count to the last (compiled templates kept for repeats)', [
+     (TB, "        self.extra_entries_generation += 1\n",
+          "        sig_ = (len(b_entries), len(d_entries))\n        if getattr(self, '_last_sig', None) != sig_:\n            self.extra_entries_generation += 1\n        self._last_sig = sig_\n")]),
 ]
 sel = sys.argv[3:]
-for name, fn, a, b in MUTS:
+for mut in MUTS:
+    name = mut[0]
+    edits = mut[1] if isinstance(mut[1], list) else [mut[1:]]
     if sel and not any(name.startswith(x + ' ') for x in sel):
         continue
-    F = os.path.join(REPO, fn)
-    orig = open(F).read()
-    if orig.count(a) != 1:
-        print('PATTERN PROBLEM', name, orig.count(a)); continue
-    open(F, 'w').write(orig.replace(a, b))
+    origs = {}
+    bad = False
+    for fn, a, b in edits:
+        F = os.path.join(REPO, fn)
+        cur = open(F).read()
+        origs.setdefault(F, cur)
+        if cur.count(a) != 1:
+            print('PATTERN PROBLEM', name, fn, cur.count(a)); bad = True; break
+        open(F, 'w').write(cur.replace(a, b))
     try:
-        p = subprocess.run(['./check', 'C20', '--tier', 'quick'], cwd=VERIF, env=dict(os.environ, VERIF_REPO=REPO),
-                           stdout=subprocess.PIPE, stderr=subprocess.STDOUT, text=True)
+        if not bad:
+            p = subprocess.run(['./check', 'C20', '--tier', 'quick'], cwd=VERIF, env=dict(os.environ, VERIF_REPO=REPO),
+                               stdout=subprocess.PIPE, stderr=subprocess.STDOUT, text=True)
     finally:
-        open(F, 'w').write(orig)
+        for F, orig in origs.items():
+            open(F, 'w').write(orig)
+    if bad:
+        continue
     lines = p.stdout.split('\n')
     viol = [l for l in lines if l.startswith('VIOLATION')]
     det = ''
@@ -49,4 +91,5 @@ for name, fn, a, b in MUTS:
     print('%-75s rc=%d violations=%d %s' % (name[:75], p.returncode, len(viol), det)); sys.stdout.flush()
     if p.returncode == 2:
         print(p.stdout[-1500:])
-    assert open(F).read() == orig
+    for F, orig in origs.items():
+        assert open(F).read() == orig
